@@ -341,6 +341,130 @@ def wrapped_locals(fn, tainted):
 INT_VEC = re.compile(r"std::vector<(std::vector<)?(unsigned int|int|unsigned long|long|short|unsigned short)")
 
 
+class _NoLinear(Exception):
+    pass
+
+
+def _linear_bound_check(prog, fn, fi, sink_expr, cont_expr):
+    """Is 'end position of sink_expr <= size of its container' implied by a dominating throwing guard, in linear integer
+    arithmetic over (position of the iterator at the guard, file values, container size)?  Returns (True|False, explanation)
+    or None when the sink or the guards are not linear iterator arithmetic."""
+    import sympy as sp
+    S = sp.Symbol("size", integer=True)
+
+    def pos(e, shift):
+        """symbolic position of an iterator-valued expression; shift: did -> increments applied to iterator variables"""
+        e = strip(e)
+        k = e.get("k")
+        if k == "CXXMemberCallExpr" and e.get("callee", "").split("::")[-1] in ("begin", "cbegin"):
+            return sp.Integer(0)
+        if k == "CXXMemberCallExpr" and e.get("callee", "").split("::")[-1] in ("end", "cend"):
+            return S
+        if k == "DeclRefExpr" and "__normal_iterator" in e.get("t", ""):
+            return sp.Symbol("pos_%s" % e["ref"]["did"], integer=True) + shift.get(e["ref"]["did"], 0)
+        if k == "CXXOperatorCallExpr" and e.get("op") == "+" and len(e["c"]) == 3:
+            return pos(e["c"][1], shift) + val(e["c"][2], shift)
+        if k == "CXXOperatorCallExpr" and e.get("op") == "-" and len(e["c"]) == 3 and "__normal_iterator" in e.get("t", ""):
+            return pos(e["c"][1], shift) - val(e["c"][2], shift)
+        if k == "CallExpr" and e.get("callee") == "std::next" and len(call_args(e)) == 2:
+            return pos(call_args(e)[0], shift) + val(call_args(e)[1], shift)
+        if k in ("CXXConstructExpr", "CXXFunctionalCastExpr") and e.get("c") and len(e["c"]) == 1:
+            return pos(e["c"][0], shift)
+        raise _NoLinear()
+
+    def val(e, shift):
+        e = strip(e)
+        k = e.get("k")
+        if k == "IntegerLiteral":
+            return sp.Integer(int(e["v"]))
+        if k == "DeclRefExpr":
+            return sp.Symbol("v_%s" % e["ref"]["did"], integer=True)
+        if k in ("CStyleCastExpr", "CXXStaticCastExpr", "CXXFunctionalCastExpr") and e.get("c"):
+            return val(e["c"][-1], shift)
+        if k == "BinaryOperator" and e.get("op") in ("+", "-", "*"):
+            a, b = val(e["c"][0], shift), val(e["c"][1], shift)
+            r = a + b if e["op"] == "+" else (a - b if e["op"] == "-" else a * b)
+            if e["op"] == "*" and not (a.is_number or b.is_number):
+                raise _NoLinear()
+            return r
+        if k == "CXXMemberCallExpr" and e.get("callee", "").split("::")[-1] == "size":
+            return S
+        if k == "CallExpr" and e.get("callee") == "std::distance" and len(call_args(e)) == 2:
+            return pos(call_args(e)[1], shift) - pos(call_args(e)[0], shift)
+        if k == "CXXOperatorCallExpr" and e.get("op") == "-" and len(e["c"]) == 3:
+            return pos(e["c"][1], shift) - pos(e["c"][2], shift)
+        raise _NoLinear()
+
+    def shifts_between(a, b):
+        """increments applied to iterator variables by the statements strictly between nodes a and b (program order), provided
+        they are unconditional siblings in the same block"""
+        sh = {}
+        anc = {id(p_) for p_, _, _ in fi.ancestors(b)}
+        for n in fi.nodes:
+            if not (fi.order[id(a)] < fi.order[id(n)] < fi.order[id(b)]) or id(n) in anc:
+                continue
+            k = n.get("k")
+            tgt = None
+            inc = None
+            if k == "CXXOperatorCallExpr" and n.get("op") in ("++", "--") and "__normal_iterator" in strip(n["c"][1]).get("t", ""):
+                tgt, inc = strip(n["c"][1]), (1 if n["op"] == "++" else -1)
+            elif k == "CXXOperatorCallExpr" and n.get("op") == "+=" and "__normal_iterator" in strip(n["c"][1]).get("t", ""):
+                tgt, inc = strip(n["c"][1]), val(n["c"][2], sh)
+            elif k in ("CXXOperatorCallExpr", "BinaryOperator") and n.get("op") == "=" and "__normal_iterator" in strip(n["c"][-2]).get("t", ""):
+                t_ = strip(n["c"][-2])
+                if t_.get("k") == "DeclRefExpr":
+                    newp = pos(n["c"][-1], sh)
+                    cur = sp.Symbol("pos_%s" % t_["ref"]["did"], integer=True)
+                    tgt, inc = t_, sp.simplify(newp - cur - sh.get(t_["ref"]["did"], 0))
+            if tgt is not None and tgt.get("k") == "DeclRefExpr":
+                if fi.enclosing(n, ("IfStmt",)) is not None and fi.enclosing(n, ("IfStmt",)) is not fi.enclosing(b, ("IfStmt",)) and fi.order[id(fi.enclosing(n, ("IfStmt",)))] > fi.order[id(a)]:
+                    raise _NoLinear()
+                sh[tgt["ref"]["did"]] = sh.get(tgt["ref"]["did"], 0) + inc
+        return sh
+
+    from ..model import always_exits
+    guards = []
+    for cond, pol in fi.guards(sink_expr):
+        c = strip(cond)
+        if c.get("k") != "BinaryOperator" or c.get("op") not in ("<", "<=", ">", ">="):
+            continue
+        # only 'if(cond) throw' guards seen from after the if (pol False)
+        if pol:
+            continue
+        try:
+            sh0 = {}
+            L, R = val(c["c"][0], sh0), val(c["c"][1], sh0)
+        except _NoLinear:
+            continue
+        op = c["op"]
+        # continuing means NOT (L op R)
+        g = {">": L - R, ">=": L - R + 1, "<": R - L, "<=": R - L + 1}[op]      # g <= 0 holds afterwards
+        guards.append((g, cond))
+    if not guards:
+        return None
+    results = []
+    for g, cond in guards:
+        try:
+            sh = shifts_between(cond, sink_expr)
+            E = pos(sink_expr, sh)
+        except _NoLinear:
+            continue
+        d = sp.simplify((E - S) - g)
+        if d.is_number:
+            results.append((bool(d <= 0), "end position - size = guard %+d" % int(d), cond))
+    if not results:
+        return None
+    for ok, why, cond in results:
+        if ok:
+            return True, why
+    return False, results[0][1]
+
+
+def _signed(t):
+    t = t.replace("const ", "").strip()
+    return t in ("int", "short", "long", "long long", "char", "signed char", "std::ptrdiff_t", "ptrdiff_t") or t.startswith("int") and "unsigned" not in t
+
+
 def file_index(rep, prog):
     """Taint: integers parsed from the file (std::stoi & co, elements of integer-vector parameters).
     Sinks: vector subscript, iterator + offset, std::next(it, off), element [0]/front()/back() of a
@@ -349,14 +473,21 @@ def file_index(rep, prog):
     fns = [f for f in product_fns(prog) if f.get("cls") == "mesh_reader" and isinstance(f.get("body"), dict)]
     if len(fns) < 5:
         raise AnalysisBroken("mesh_reader functions not found")
-    for fn in fns:
+    # consumers of the reader's integer vectors outside the reader (the initializer indexes the cell type list with them)
+    consumers = [f for f in product_fns(prog) if f.get("cls") != "mesh_reader" and isinstance(f.get("body"), dict)
+                 and any(n.get("k") == "Var" and INT_VEC.search(n.get("t", "")) and isinstance(n.get("init"), dict) and any(is_call(x) and x.get("callee", "").startswith("mesh_reader::") for x in walk(n["init"])) for n in walk(f["body"]))]
+    for fn in fns + consumers:
         fi = prog.index(fn)
         tainted = {}   # did -> name
         containers = {}  # did -> name  (file-derived integer containers)
         origin = {}    # iterator did -> dids of the containers it points into
-        for p in fn.get("params", []):
-            if INT_VEC.search(p["t"]):
-                containers[p["did"]] = p["name"]
+        if fn.get("cls") == "mesh_reader":
+            for p in fn.get("params", []):
+                if INT_VEC.search(p["t"]):
+                    containers[p["did"]] = p["name"]
+        for n in walk(fn["body"]):
+            if n.get("k") == "Var" and INT_VEC.search(n.get("t", "")) and isinstance(n.get("init"), dict) and any(is_call(x) and x.get("callee", "").startswith("mesh_reader::") for x in walk(n["init"])):
+                containers[n["did"]] = n["name"]
         # propagate to a fixpoint over declarations / assignments
         def expr_tainted(e):
             for x in walk(e):
@@ -421,6 +552,9 @@ def file_index(rep, prog):
             elif k == "CXXOperatorCallExpr" and n.get("op") in ("+", "+=") and "__normal_iterator" in n.get("t", "") and len(n.get("c", [])) == 3:
                 if expr_tainted(n["c"][2]):
                     sink = ("iterator offset %s" % short(n, 70), n["c"][2], n["c"][1])
+                elif strip(n["c"][1]).get("k") == "CXXOperatorCallExpr" and strip(n["c"][1]).get("op") == "+" and expr_tainted(strip(n["c"][1])["c"][2]):
+                    # (begin + tainted) + constant: the outer position is what is dereferenced up to
+                    sink = ("iterator offset %s" % short(n, 70), strip(n["c"][1])["c"][2], strip(n["c"][1])["c"][1])
             elif k == "CallExpr" and n.get("callee") in ("std::next", "std::advance") and len(call_args(n)) == 2:
                 a = call_args(n)
                 if expr_tainted(a[1]) and strip(a[1]).get("k") != "IntegerLiteral":
@@ -468,6 +602,36 @@ def file_index(rep, prog):
                 if mentions_idx and size_of_cont:
                     ok = True
                     break
+            # a signed index must also be kept from being negative: either the bound comparison is carried out in unsigned
+            # arithmetic (the index is converted to the size type) or a separate test excludes negative values
+            if ok and idx is not None and names and _signed(strip(idx).get("t", "")):
+                nonneg = False
+                for cond, pol in fi.guards(n):
+                    for x in walk(cond):
+                        if x.get("k") == "BinaryOperator" and x.get("op") in ("<", "<=", ">", ">=", "==", "!="):
+                            for side, other in ((x["c"][0], x["c"][1]), (x["c"][1], x["c"][0])):
+                                if any(y.get("k") == "DeclRefExpr" and y["ref"]["did"] in names for y in walk(side)):
+                                    if not _signed(side.get("t", "")) or not _signed(other.get("t", "")) and "unsigned" in other.get("t", ""):
+                                        nonneg = True
+                                    o = strip(other)
+                                    if o.get("k") == "IntegerLiteral" and str(o.get("v")) == "0" and x["op"] in ("<", ">=", ">", "<="):
+                                        nonneg = True
+                if not nonneg:
+                    rep.violation("C17.file-index", prog, fn, n, "negative %s not excluded" % re.sub(r"#\d+", "", what),
+                                  "%s: the index (%s, signed) is compared with the container size in signed arithmetic and no test excludes negative values: a negative id parsed from the input file passes the check and reads before the start of the container" % (what, ", ".join(sorted(tainted[d] for d in names))))
+                    continue
+            if ok and k != "CXXOperatorCallExpr" or (ok and n.get("op") != "[]"):
+                lin = None
+                try:
+                    lin = _linear_bound_check(prog, fn, fi, n, cont)
+                except _NoLinear:
+                    lin = None
+                if lin is not None and not lin[0]:
+                    rep.violation("C17.file-index", prog, fn, n, "bound check too weak for %s" % re.sub(r"#\d+", "", what),
+                                  "%s: the dominating check relates the file value to the container size but does not imply that the position reached stays within the container (%s, must be <= 0): a record that declares one element too many reads past the end instead of raising mesh_reader_exception" % (what, lin[1]))
+                    continue
+                if lin is not None:
+                    what = what + " [linear: %s]" % lin[1]
             if ok:
                 rep.ok("C17.file-index", prog, fn, n, "%s: dominated by a bound check on the same container" % what)
             else:
